@@ -5,6 +5,16 @@ FILE = 'pdf/src/file.rs'
 W = 'resolve.world()'
 WF = 'wf_tree(%s, *self, depth as nat)' % W
 
+BOX_RW = [
+    # shape-only rewrites (count '*'): whatever selector expression / field name the code uses stays verbatim under proof
+    {'rule': 'R3', 'regex': r'PdfError::MissingEntry\s*\{\s*typ:\s*"Page",\s*field:\s*"[A-Za-z]+"\.into\(\)\s*\}', 'count': '*',
+     'replace': 'PdfError::MissingEntry { typ: "Page" }'},
+    {'rule': 'R1', 'regex': r'\|\|\s*PdfError::MissingEntry \{ typ: "Page" \}', 'count': '*',
+     'replace': '|| -> (e: PdfError) ensures e == (PdfError::MissingEntry { typ: "Page" }) { PdfError::MissingEntry { typ: "Page" } }'},
+]
+def box_closure(ty):
+    return {'rule': 'R1', 'regex': r'inherit\(&self\.parent,\s*\|pt\|\s*(.*?)\)\?', 'count': '*',
+            'replace': r'inherit(&self.parent, |pt: &PageTree| -> (o: %s) ensures o == (\1) { \1 })?' % ty}
 UNIT = {
  'name': 'pagetree',
  'doc': 'Page lookup by number (n-th leaf in document order, depth budget) and inherited page attributes',
@@ -99,23 +109,13 @@ UNIT = {
       'props': ['C07'],
       'ensures': [('media_box_effective',
                    'match effective(self.media_box, self.parent, sel_media_box()) { Some(b) => r == Ok::<Rectangle, PdfError>(b), None => missing(r) }')],
-      'rewrites': [
-          {'rule': 'R3', 'find': 'PdfError::MissingEntry { typ: "Page", field: "MediaBox".into() }',
-           'replace': 'PdfError::MissingEntry { typ: "Page" }'},
-          {'rule': 'R1', 'find': '|| PdfError::MissingEntry { typ: "Page" }',
-           'replace': '|| -> (e: PdfError) ensures e == (PdfError::MissingEntry { typ: "Page" }) { PdfError::MissingEntry { typ: "Page" } }'},
-          {'rule': 'R1', 'find': '|pt| pt.media_box',
-           'replace': '|pt: &PageTree| -> (o: Option<Rectangle>) ensures o == pt.media_box { pt.media_box }'},
-      ]},
+      'rewrites': BOX_RW + [box_closure('Option<Rectangle>')]},
   'Page::crop_box': {'kind': 'fn', 'file': T, 'container': r'^impl Page$', 'name': 'crop_box',
       'props': ['C07'],
       'ensures': [('crop_box_effective',
                    'match effective(self.crop_box, self.parent, sel_crop_box()) { Some(b) => r == Ok::<Rectangle, PdfError>(b), '
                    'None => match effective(self.media_box, self.parent, sel_media_box()) { Some(b) => r == Ok::<Rectangle, PdfError>(b), None => missing(r) } }')],
-      'rewrites': [
-          {'rule': 'R1', 'find': '|pt| pt.crop_box',
-           'replace': '|pt: &PageTree| -> (o: Option<Rectangle>) ensures o == pt.crop_box { pt.crop_box }'},
-      ]},
+      'rewrites': BOX_RW + [box_closure('Option<Rectangle>')]},
   'Page::resources': {'kind': 'fn', 'file': T, 'container': r'^impl Page$', 'name': 'resources',
       'props': ['C07'],
       'ensures': [('resources_effective',
